@@ -42,6 +42,7 @@ type DItem struct {
 	Body     *DBody   `json:"body,omitempty"`
 	OneLine  bool     `json:"one_line,omitempty"`
 	PreLabel string   `json:"pre_label,omitempty"` // comment between type and first label / brace
+	OpenCmt  string   `json:"open_cmt,omitempty"`  // comment after the opening brace, on its line
 }
 
 type DLabel struct {
